@@ -119,6 +119,8 @@ type histOpts struct {
 	// sameColCount: every table has as many columns as the first (used for tables that are re-announced with other
 	// column types under the same id and name)
 	sameColCount bool
+	// tableIDBase: table i gets the id tableIDBase - i (0 = the generator's own choice)
+	tableIDBase uint64
 }
 
 var allUnitKinds = []string{"txXid", "txCommit", "txRollback", "ddl", "autoRows", "stmtDml", "rotation", "restart", "ignorable", "unknownStmt", "setStmt", "emptyTx"}
@@ -159,8 +161,11 @@ func genHistory(r *vh.Rng, cfg Cfg, o histOpts) *history {
 	// A table id is an opaque 4- or 6-byte number the master hands out; no value of it is special.  One history in four
 	// uses ids at the edges of the 24-, 32- and 16-bit ranges (0xffffff is the id MySQL itself puts into the dummy rows
 	// event that only carries STMT_END_F, and a replica that gives that value a meaning must not lose a real table).
-	if tq := r.Side(); tq.Chance(1, 3) {
+	if tq := r.Side(); tq.Chance(1, 3) || o.tableIDBase != 0 {
 		base := uint64(tq.Pick(0xffffff, 0xffffff, 0xffffff, 0x1000000, 0xffff, 0xfffffffe, 1))
+		if o.tableIDBase != 0 {
+			base = o.tableIDBase
+		}
 		for i := range h.tables {
 			if base >= uint64(i) {
 				h.tables[i].id = base - uint64(i)
